@@ -104,10 +104,11 @@ def MH.commit (cfg : Cfg) (h : MH) (f : FL) : MH × Bool :=
   if h1.length > cfg.maxHdrLen || h1.number > cfg.maxHdrNum then (h1, false) else (h1, true)
 
 /-- the blank line at the end of the headers (the code after the loop) -/
-def MH.blank (h : MH) : Bytes → MH × Bytes × Bool
+def MH.blank (cfg : Cfg) (h : MH) : Bytes → MH × Bytes × Bool
   | [] => (h, [], false)
   | c :: cs =>
     if !h.blankCr && !isEol c then (h, c :: cs, false)
+    else if !(!h.blankCr && c == 13) && cfg.strict && !h.blankCr then (h, c :: cs, false)
     else
       let hr : MH × Bytes := if !h.blankCr && c == 13 then ({ h with blankCr := true }, cs) else (h, c :: cs)
       match hr.2 with
@@ -139,7 +140,7 @@ def MH.fresh (cfg : Cfg) (h : MH) (buf : Bytes) : MH × Bytes × Bool :=
   match buf with
   | [] => (h, [], false)
   | c :: cs =>
-    if isEol c then MH.blank h (c :: cs)
+    if isEol c then MH.blank cfg h (c :: cs)
     else
       let r := FL.loop cfg {} (c :: cs)
       if !r.2.2 then ({ h with field := r.1 }, r.2.1, false)
@@ -156,7 +157,7 @@ decreasing_by
 
 /-- `message_headers::parse` -/
 def MH.parse (cfg : Cfg) (h : MH) (buf : Bytes) : MH × Bytes × Bool :=
-  if h.blankCr then MH.blank h buf
+  if h.blankCr then MH.blank cfg h buf
   else if h.field.started then
     match buf with
     | [] => (h, [], false)
